@@ -250,6 +250,9 @@ class AbstractExcelInPython(ABC):
 
     def _match(self, lookup_value, lookup_array: List, match_type: int = 0):
         lookup_value_type = int if isinstance(lookup_value, self.EmptyCell) else type(lookup_value)
+        if lookup_value_type in (int, float):
+            # 2.0 and 2 are the same number for Excel
+            lookup_value_type = (int, float)
 
         match match_type:
             case 0:
